@@ -60,8 +60,8 @@ claim('C06', 'CBMC: REF oracle on the VM step engine, real shared-string counter
       'Whole-run leak freedom, statistics counters, mappings/classes/function pointers and programs are outside; operand arrays are typed static objects with a second holder.',
       'DESIGN.md 5/C06')
 claim('C03', 'CBMC differential harnesses on the real code: code generator literal encoder -> interpreter, index opcodes vs a mathematical reference',
-      'Solver-decided for all int64 values: the literal the real write_long_number encodes is the value the real interpreter pushes; x[i] and x[<i] on strings, buffers and arrays return the referenced element for in-range indices and raise an error for every out-of-range int64 index (arrays: typed blocks, index classes that cover all of int64).',
-      'Only the literal and index parts of C03 are covered: op= vs op, loops, switch, folding, mappings and the compiler choice of opcodes are not; buffer element values are compared at index 0 only (CBMC struct-hack limitation).',
+      'Solver-decided for all int64 values: the literal the real write_long_number encodes is the value the real interpreter pushes; x[i] and x[<i] on strings, buffers and arrays return the referenced element for in-range indices and raise an error for every out-of-range int64 index (arrays: typed blocks, index classes that cover all of int64). switch on an integer selects exactly the case whose label equals the value, else default, for every table of 1..7 (9) strictly ascending int64 labels laid out as the code generator writes them (real f_switch binary search incl. the non-2^k-1 fix-up).',
+      'Only the literal, index and integer-switch parts of C03 are covered: op= vs op, loops, string and range switches, folding, mappings and the compiler choice of opcodes are not; buffer element values are compared at index 0 only (CBMC struct-hack limitation).',
       'DESIGN.md 5/C03')
 claim('C02', 'CBMC on the real compiler locals bookkeeping (init_locals, add_local_name, reallocate_locals, de/reactivate, pop_n_locals) with the function-literal grammar actions replayed',
       'Solver-decided memory safety of every table write against the blocks really allocated, cursors back at base and no stale local binding after unwinding, limit on the total number of local slots across sibling blocks; per-level counts are concrete per run, everything else is executed symbolically.',
